@@ -12,6 +12,12 @@ func coprocCase(r *rng.R, spec string, flags uint8, base uint16, n int) string {
 	cfg.MemSpec = spec
 	cfg.F256MCoprocFlags = flags
 	cfg.F256MCoprocBase = base
+	if (flags+uint8(base>>3)+uint8(n))%3 == 0 {
+		// with an output port layer configured as well (a page the coprocessor does not use)
+		cfg.IoMask = uint8((base>>8)+1) & 0x3F
+		cfg.IoAddrConfig = map[uint8]string{0x00: "stdout:bin"}
+		count("coproc.withports")
+	}
 	c, err := cfg.NewCpu()
 	if err != nil {
 		panic(err)
